@@ -60,6 +60,20 @@ def gen_prices(rng, n: int, regime: str, base_prices=(1.5, 20.0, 100.0, 431.27, 
             c = r2(max(0.01, o + rng.choice([-0.01, 0.0, 0.01])))
             h, l = max(o, c), min(o, c)
             v = rng.randint(0, 3)
+        elif sub == "micro":
+            # long flat stretches with moves far below the 4-decimal rounding of helper series
+            o = price
+            c = round(max(0.01, o + rng.choice([0.0, 0.0, 0.0, 0.0, 0.0005, -0.0003, 0.0001])), 4)
+            h = round(max(o, c) + rng.choice([0.0, 0.0, 0.0, 0.0005, 0.0002]), 4)
+            l = round(max(0.0001, min(o, c) - rng.choice([0.0, 0.0, 0.0, 0.0004])), 4)
+            v = rng.choice([0, 1, 50])
+        elif sub == "zeros":
+            # legitimate but unusual: prices that touch exactly 0.0 (falsy values)
+            o = rng.choice([0.0, 0.0, price])
+            c = r2(max(0.0, price + rng.choice([-0.5, 0.0, 0.5])))
+            h = r2(max(o, c) + rng.choice([0.0, 0.25]))
+            l = rng.choice([0.0, min(o, c)])
+            v = rng.choice([0, 5, 100])
         else:  # zero_vol
             o = price
             c = r2(max(0.05, o * (1 + rng.gauss(0, 0.01))))
@@ -95,7 +109,7 @@ def gen_timestamps(rng, n: int, mode: str, step: int, start: Optional[int] = Non
 
 def gen_stream(rng, n: int, regime: Optional[str] = None, ts_mode: Optional[str] = None,
                step: Optional[int] = None) -> Tuple[List[Dict], Dict]:
-    regime = regime or rng.choice(REGIMES)
+    regime = regime or rng.choice(REGIMES + ["zeros"])
     ts_mode = ts_mode or rng.choice(TS_MODES)
     step = step or rng.choice([1, 5, 20, 60, 60, 300, 900, 3600, 86400])
     rows = gen_prices(rng, n, regime)
